@@ -1,5 +1,6 @@
 #!/bin/sh
 # tools/try_all.sh <patch> : apply to /repo, run all 20 quick checks in parallel, list those that fire, revert.
+[ -z "$(git -C /repo status --porcelain)" ] || { echo "REFUSING: /repo has uncommitted changes (this tool ends with git checkout -- .)"; exit 4; }
 p="$1"
 git -C /repo apply "$p" || { echo "PATCH DOES NOT APPLY: $p"; exit 3; }
 for c in $(seq -w 1 20); do ( /verif/check C$c --tier quick >/tmp/ta_$c.log 2>&1; echo "C$c:$?" ) & done | sort | grep -v ':0$' | tr '\n' ' '
